@@ -68,6 +68,9 @@ type Op struct {
 	TagKind int `json:"tag_kind,omitempty"` // 0 the tag, 1 the referrers fallback tag of Node
 	// tmp
 	Name int `json:"name,omitempty"`
+	// Ctx is the state of the context the operation is called with: 0 live, 1 already cancelled, 2 deadline already
+	// expired, 3 cancelled by another goroutine while the call runs (what `defer rc.Close(ctx, r)` sees after ctrl-c / a timeout)
+	Ctx int `json:"ctx,omitempty"`
 }
 
 // CaseA is one sequential history.
@@ -86,6 +89,7 @@ type StepB struct {
 	Kind    string `json:"kind"` // copy | close | pause
 	Copy    int    `json:"copy,omitempty"`
 	PauseUs int    `json:"pause_us,omitempty"`
+	Ctx     int    `json:"ctx,omitempty"` // close: context state (see Op.Ctx)
 }
 
 // CopyB is one copy of a Part-B schedule (copy i reads repository proj/c<i> and writes tag c<i>).
@@ -107,9 +111,13 @@ type CaseB struct {
 	Workers    [][]StepB     `json:"workers"`
 	CloseEvery int           `json:"close_every"` // Close(target) from inside every k-th source request (0 = off)
 	CloseAt    []int         `json:"close_at,omitempty"`
+	CloseCtx   []int         `json:"close_ctx,omitempty"` // context states of the closes issued from inside copies (cyclic; empty = live)
 	Delays     []int         `json:"delays,omitempty"`
 	Procs      int           `json:"procs"`
 }
+
+// closeCtxChoices: ~30 % of the closes run with a dead / dying context.
+var closeCtxChoices = []int{0, 0, 0, 0, 0, 0, 0, 1, 2, 3}
 
 var platformChoices = [][]string{
 	{"linux/amd64"},
@@ -348,6 +356,13 @@ func genOp(t *rapid.T, nNodes, nBlobs int, system string) Op {
 	case "tmp":
 		op.Name = rapid.IntRange(0, 3).Draw(t, "name")
 	}
+	switch kind {
+	case "close":
+		// ~30 % of the closes run with a context that is (or becomes) dead
+		op.Ctx = rapid.SampledFrom([]int{0, 0, 0, 0, 0, 0, 0, 1, 2, 3}).Draw(t, "ctx")
+	case "copy", "push", "manifest", "blob", "tagdel", "mandel":
+		op.Ctx = rapid.SampledFrom([]int{0, 0, 0, 0, 0, 0, 0, 0, 0, 0, 0, 0, 0, 0, 0, 0, 1, 2, 3}).Draw(t, "ctx")
+	}
 	return op
 }
 
@@ -415,7 +430,7 @@ func genB(t *rapid.T) Case {
 		}
 		c.Workers[w] = append(c.Workers[w], StepB{Kind: "copy", Copy: i})
 		if rapid.IntRange(0, 3).Draw(t, l+"_close") != 0 {
-			c.Workers[w] = append(c.Workers[w], StepB{Kind: "close"})
+			c.Workers[w] = append(c.Workers[w], StepB{Kind: "close", Ctx: rapid.SampledFrom(closeCtxChoices).Draw(t, l+"_closectx")})
 		}
 	}
 	// a worker that only closes (regbot-style housekeeping running beside the copies)
@@ -424,7 +439,7 @@ func genB(t *rapid.T) Case {
 			nc := rapid.IntRange(1, 4).Draw(t, fmt.Sprintf("w%d_nclose", w))
 			for j := 0; j < nc; j++ {
 				c.Workers[w] = append(c.Workers[w], StepB{Kind: "pause", PauseUs: rapid.SampledFrom(pauses[1:]).Draw(t, fmt.Sprintf("w%d_p%d", w, j))},
-					StepB{Kind: "close"})
+					StepB{Kind: "close", Ctx: rapid.SampledFrom(closeCtxChoices).Draw(t, fmt.Sprintf("w%d_c%d", w, j))})
 			}
 		}
 	}
@@ -432,6 +447,10 @@ func genB(t *rapid.T) Case {
 	nca := rapid.IntRange(0, 4).Draw(t, "ncloseat")
 	for j := 0; j < nca; j++ {
 		c.CloseAt = append(c.CloseAt, rapid.IntRange(0, 80).Draw(t, "closeat"))
+	}
+	ncc := rapid.IntRange(0, 4).Draw(t, "nclosectx")
+	for j := 0; j < ncc; j++ {
+		c.CloseCtx = append(c.CloseCtx, rapid.SampledFrom(closeCtxChoices).Draw(t, "closectx"))
 	}
 	nd := rapid.IntRange(0, 6).Draw(t, "ndelays")
 	for j := 0; j < nd; j++ {
